@@ -139,7 +139,13 @@ pub fn gen_case(seed: u64, idx: usize, acc: &mut Acc) -> Case {
         if ext.chars().any(|c| c.is_ascii_uppercase()) {
             acc.count("extension_with_upper_case");
         }
-        let name = format!("in{i}{ext}");
+        // one name in ten carries a byte that is not UTF-8 (procmon::os_name turns U+FFFD into 0xE9)
+        let name = if rng.chance(1, 10) {
+            acc.count("input_names_not_utf8");
+            format!("in{i}\u{fffd}{ext}")
+        } else {
+            format!("in{i}{ext}")
+        };
         // a document-less YAML file read as a SLICE is a recorded C02 finding: keep exactly that combination out
         if documentless && kind == "regular" && from.or_else(|| climodel::extension_format(&name)) == Some(Fmt::Yaml) {
             bytes = b"a: 1\n".to_vec();
@@ -184,7 +190,7 @@ pub fn judge(case: &Case, acc: &mut Acc) {
                 files.insert(inp.name.clone(), PathKind::Fifo(inp.content.clone()));
             }
             "directory" => {
-                let _ = std::fs::create_dir_all(sc.path().join(&inp.name));
+                let _ = std::fs::create_dir_all(sc.path().join(procmon::os_name(&inp.name)));
                 files.insert(inp.name.clone(), PathKind::Directory);
             }
             _ => {
@@ -201,9 +207,9 @@ pub fn judge(case: &Case, acc: &mut Acc) {
             match case.bursts {
                 Some(bs) => {
                     acc.count("fifo_delivered_in_bursts");
-                    fifo_threads.push(procmon::feed_fifo_bursts(sc.path().join(&inp.name), cut_bursts(&inp.content, bs), 20));
+                    fifo_threads.push(procmon::feed_fifo_bursts(sc.path().join(procmon::os_name(&inp.name)), cut_bursts(&inp.content, bs), 20));
                 }
-                None => fifo_threads.push(procmon::feed_fifo(sc.path().join(&inp.name), inp.content.clone())),
+                None => fifo_threads.push(procmon::feed_fifo(sc.path().join(procmon::os_name(&inp.name)), inp.content.clone())),
             }
         }
     }
@@ -287,7 +293,7 @@ pub fn run(ctx: &Ctx) -> i32 {
     strace_sample(&mut acc);
     let rule = format!("{} invocations: -f absent or each format x 1-3 inputs, each a regular file / FIFO / '-' (also twice; standard input a pipe, or a regular file at offset 0 or past earlier bytes; one run in five delivers pipe and FIFO content in bursts with pauses) / directory / missing file, named with every extension in random letter case, multi-dot, none or misleading, holding content of each format (1-3 generated documents), content valid in several formats, large documents with long multi-line strings (tens of KiB of output), or invalid content, x all targets; expected stdout and exit status computed by the library in the matching supply mode; distinct non-trivial = distinct invocations", n);
     ev::finish(
-        Finish { ctx, level: "exploration", rule, assumptions: vec!["document-less YAML regular files are kept out (recorded C02 finding)".into(), "strace counters are evidence that both supply modes were really observed, not an oracle".into()], extra: serde_json::Map::new(), exhaustive: false, min_distinct: 1000, must_reach: vec![("input_kind_fifo".into(), 200), ("input_kind_stdin".into(), 200), ("input_kind_regular".into(), 1000), ("extension_with_upper_case".into(), 500), ("extension_kind_multi_dot".into(), 200), ("stdin_named_twice".into(), 20), ("resolved_detect_slice".into(), 100), ("resolved_detect_reader".into(), 100), ("stdin_is_regular_file_at_later_offset".into(), 100), ("stdin_is_regular_file_at_offset_0".into(), 50), ("stdin_delivered_in_bursts".into(), 50), ("fifo_delivered_in_bursts".into(), 50), ("content_zero_length".into(), 100), ("content_large_multiline_content".into(), 100)] },
+        Finish { ctx, level: "exploration", rule, assumptions: vec!["document-less YAML regular files are kept out (recorded C02 finding)".into(), "strace counters are evidence that both supply modes were really observed, not an oracle".into()], extra: serde_json::Map::new(), exhaustive: false, min_distinct: 1000, must_reach: vec![("input_kind_fifo".into(), 200), ("input_kind_stdin".into(), 200), ("input_kind_regular".into(), 1000), ("extension_with_upper_case".into(), 500), ("extension_kind_multi_dot".into(), 200), ("stdin_named_twice".into(), 20), ("resolved_detect_slice".into(), 100), ("resolved_detect_reader".into(), 100), ("stdin_is_regular_file_at_later_offset".into(), 100), ("stdin_is_regular_file_at_offset_0".into(), 50), ("stdin_delivered_in_bursts".into(), 50), ("fifo_delivered_in_bursts".into(), 50), ("content_zero_length".into(), 100), ("input_names_not_utf8".into(), 100), ("content_large_multiline_content".into(), 100)] },
         acc,
     )
 }
